@@ -23,7 +23,9 @@ PLAN = {
 }
 
 
-def deviation_bound(tier, n_edges):
+def deviation_bound(tier, n_edges, n_topologies=1):
+    if n_topologies >= 2 and n_edges <= (4 if tier == "quick" else 5):
+        return 2   # a complete second proposal (possibly of the other topology) inside one call
     if tier == "quick":
         return 1 if n_edges <= 5 else 0
     return 2 if n_edges <= 5 else (1 if n_edges <= 8 else 0)
@@ -189,7 +191,7 @@ def run_instance(inst, tier):
         shapes0 = mcmc.motif_shapes(state)
         target = mcmc.make_target(state, names, "uniform")
         nE = len(state[1])
-        d = deviation_bound(tier, nE)
+        d = deviation_bound(tier, nE, len(names))
         r = mcmc.explore_step(state, state, shapes0, names, target, d)
         res.executions += r.leaves
         res.states += 1
